@@ -379,6 +379,13 @@ func opsInputCase(cs *fw.Case) {
 		cs.Skip("operand-construction-panics")
 		return
 	}
+	judgeOp(cs, monitor, recv+"."+spec.Name, spec.Name+"/"+t.Name, t, call, ops, result)
+}
+
+// judgeOp runs one operation and judges it: operands unchanged by the call,
+// then result and operands independent of each other under later writes.
+func judgeOp(cs *fw.Case, monitor, routine, coverKey string, t gen.ElemType, call func(), ops []*operand, result func() any) {
+	r := cs.R
 	for _, o := range ops {
 		o.snap()
 		if o.S0.Err != "" || o.P0.Err != "" {
@@ -386,19 +393,22 @@ func opsInputCase(cs *fw.Case) {
 			return
 		}
 	}
-	routine := recv + "." + spec.Name
 	pc := fw.Call(call)
 	if pc != nil {
-		cs.Cover(monitor + ":call-panics:" + spec.Name)
+		cs.Cover(monitor + ":call-panics:" + coverKey)
 	}
-	cs.Cover(monitor + ":" + spec.Name + "/" + t.Name)
+	cs.Cover(monitor + ":" + coverKey)
 	names := ""
 	for _, o := range ops {
 		names += o.Name + ";"
-		cs.Cover("set:input.op-operand-configs:" + o.Name)
+		cs.Cover("set:" + monitor + "-operand-configs:" + o.Name)
 	}
-	cs.Nontrivial(routine, names, ops[0].S0.Str)
-	cs.Sample(map[string]any{"routine": routine, "operands": names, "a": clip(ops[0].S0.Str, 200)})
+	first := ""
+	if len(ops) > 0 {
+		first = ops[0].S0.Str
+	}
+	cs.Nontrivial(routine, names, first)
+	cs.Sample(map[string]any{"routine": routine, "operands": names, "a": clip(first, 200)})
 	for _, o := range ops {
 		if d := o.changed(); d != "" {
 			cs.Violation(sig(monitor, routine, "operands:"+names, "arg="+o.Name, "modified"),
@@ -407,7 +417,7 @@ func opsInputCase(cs *fw.Case) {
 		}
 	}
 	// the result must not share cells with an operand: mutate one side, watch the other
-	if pc != nil || result == nil {
+	if pc != nil || result == nil || len(ops) == 0 {
 		return
 	}
 	var res any
@@ -415,7 +425,7 @@ func opsInputCase(cs *fw.Case) {
 		return
 	}
 	rt := t
-	w := map[string]any{"routine": routine, "operands": names, "operand_a": clip(ops[0].S0.Str, 300)}
+	w := map[string]any{"routine": routine, "operands": names, "operand_a": clip(first, 300)}
 	if r.Bool() {
 		cs.Cover(monitor + ":independence:mutate-result")
 		for k := r.Range(2, 4); k > 0; k-- {
